@@ -284,3 +284,81 @@ def date_cases(rng, n):
                 t = t - delta if sign == "+" else t + delta
             out.append(("@%sT%02d:%02d:%02d%s" % (date, h, mi, s, tz), "timestamp", t.strftime("%Y-%m-%d %H:%M:%S")))
     return out
+
+
+# ---------------------------------------------------------------- programs with many literals in many positions (hook verif:literal)
+
+def rich_programs(rng, n, values):
+    """n programs, each (skeleton name, src, placeholder src, [string values in slot order], [placeholder texts]).
+    Every string slot is written with a random spelling of a value from `values` in `src`, and with a distinct harmless
+    placeholder in the placeholder source; every other token of the two sources is the same, so the two statements must
+    have the same token structure.  Non-string literals (integers, negative integers, floats, booleans, null, dates,
+    times, timestamps, intervals) are the same in both."""
+    out = []
+    dates = date_cases(rng, 40)
+
+    def other(kind):
+        if kind == "I":
+            return str(rng.choice([0, 1, 7, 42, 2**31, 2**53 + 1, 2**63 - 1, rng.randrange(10**6)]))
+        if kind == "NI":
+            return "-" + str(rng.choice([1, 5, 2**31, 2**63 - 1, rng.randrange(1, 10**6)]))
+        if kind == "F":
+            return rng.choice(["1.5", "0.25", "123.456", "1e3", "2.5e-3", "1e16", "1.0", "0.1", "6.02e23", "1e-7", "9223372036854775808"])
+        if kind == "B":
+            return rng.choice(["true", "false"])
+        if kind == "N":
+            return "null"
+        if kind == "V":
+            return rng.choice(["2days", "3hours", "1years", "10minutes", "4weeks", "5months", "6seconds"])
+        want = {"D": "date", "T": "time", "TS": "timestamp"}[kind]
+        return rng.choice([d[0] for d in dates if d[1] == want])
+
+    skeletons = [
+        ("case", "from t | derive {a = case [c == ~S~ => ~S~, c != ~S~ => ~S~, true => ~S~]} | select {a}"),
+        ("coalesce", "from t | select {v = c ?? ~S~, w = d ?? ~I~, x = c ?? ~N~}"),
+        ("in", "from t | filter (c | in [~S~, ~S~, ~S~]) | select {c}"),
+        ("text", "from t | select {v = (c | text.contains ~S~), w = (c | text.starts_with ~S~), x = (c | text.ends_with ~S~), y = (c | text.replace ~S~ ~S~)}"),
+        ("relation", "from [{x = ~S~, y = ~I~, z = ~B~}, {x = ~S~, y = ~NI~, z = ~N~}] | select {x, y, z}"),
+        ("fstring", 'from t | select {v = f"~FS~{c}~FS~{d}~FS~"}'),
+        ("join", "from t | join side:left (from [{k = ~S~, w = ~S~}]) (c == k) | select {c, w}"),
+        ("filter", "from t | filter c == ~S~ || c == ~S~ && d > ~I~ | sort {c} | take 3"),
+        ("kinds", "from t | select {a = ~D~, b = ~T~, c2 = ~TS~, e = ~B~, n = ~N~, f = ~F~, g = ~F~, i = ~NI~, j = ~I~, k = ~V~}"),
+        ("datefmt", "from t | select {v = (d2 | date.to_text ~S~), w = ~S~}"),
+        ("compare", "from t | select {v = (c | text.lower) == ~S~, w = (c | text.length) > ~I~, x = ~S~ + ~S~}"),
+        ("group", "from t | group {c} (aggregate {n = count this, m = max ~S~}) | filter n > ~I~ | derive {l = ~S~}"),
+    ]
+    import re as _re
+    for k in range(n):
+        name, skel = skeletons[k % len(skeletons)]
+        vals, phs = [], []
+
+        def fill(m, real):
+            kind = m.group(1)
+            if kind in ("S", "FS"):
+                idx = fill.i
+                fill.i += 1
+                if real:
+                    v = slot_vals[idx]
+                    if kind == "FS":
+                        return esc_for('"', v.replace("{", "{{").replace("}", "}}"), rng, 1)
+                    return slot_src[idx]
+                return ("PHzz%dq" % idx) if kind == "FS" else ('"PHzz%dq"' % idx)
+            return others[m.start()]
+        nslots = len(_re.findall(r"~(S|FS)~", skel))
+        slot_vals, slot_src = [], []
+        for m in _re.finditer(r"~(S|FS)~", skel):
+            while True:
+                v = rng.choice(values)
+                if "\x00" in v or (m.group(1) == "FS" and v == ""):
+                    continue
+                break
+            slot_vals.append(v)
+            cands = [s for st, s in spellings_of(v, rng) if st != "fstr"]
+            slot_src.append(rng.choice(cands))
+        others = {m.start(): other(m.group(1)) for m in _re.finditer(r"~([A-Z]+)~", skel) if m.group(1) not in ("S", "FS")}
+        fill.i = 0
+        src = _re.sub(r"~([A-Z]+)~", lambda m: fill(m, True), skel)
+        fill.i = 0
+        ph = _re.sub(r"~([A-Z]+)~", lambda m: fill(m, False), skel)
+        out.append((name, src, ph, slot_vals, ["PHzz%dq" % i for i in range(nslots)]))
+    return out
